@@ -21,7 +21,7 @@ def _norm(decl):
 
 
 def _check_all(lg, spec0, where):
-    for t in LV + ['O']:
+    for t in [a['name'] for a in spec0['assets']]:
         want = langs.ref_fold(spec0, t)
         got = lg._get_attacks_for_asset_type(t)
         if sorted(got) != sorted(want):
@@ -71,8 +71,8 @@ def _run(cs, hist):
         else:
             if model is None:
                 lcf = LanguageClassesFactory(lg)
-                model, assets = mb.build_model(lcf, ['G1', 'G2', 'O'])
-                mb.add_link(model, lcf, 'L', 'ps', [assets[0], assets[1]], 'os', [assets[2]])
+                model, assets = mb.build_model(lcf, ['G1', 'G2', 'O', 'Am', 'G3'])
+                mb.add_link(model, lcf, 'L', 'ps', [assets[0], assets[1], assets[3], assets[4]], 'os', [assets[2]])
             g = AttackGraph(lg, model)
             for ai, t in enumerate(['G1', 'G2']):
                 want = langs.ref_fold(spec0, t)
